@@ -247,10 +247,15 @@ Proof.
     repeat split; try (vm_compute; reflexivity); try (vm_compute; discriminate); try lia.
 Qed.
 
+Definition ex_exited (r : result) : bool := match r with Exited _ => true | _ => false end.
+Example ex_r1_exited : ex_exited ex_r1 = true.
+Proof. vm_compute. reflexivity. Qed.
+
 Example ex_two_switches_reachable : exists w2,
   wreach ex_la ex_L ex_w0 w2 /\ w_cur w2 = 0%nat /\ rg (w_out w2 1) RBX = 201.
 Proof.
-  destruct ex_r1 as [m1| |] eqn:E1; try (vm_compute in E1; discriminate).
+  pose proof ex_r1_exited as X1.
+  destruct ex_r1 as [m1| |] eqn:E1; try discriminate X1. clear X1.
   set (w1 := {| w_m := m1; w_cur := 1;
                 w_out := upd (w_out ex_w0) 0%nat (set_rip ex_m0 (ex_la resume_label)) |}).
   assert (R1 : wreach ex_la ex_L ex_w0 w1).
